@@ -45,7 +45,7 @@ static const uint8_t BASE64_ENCODING_TABLE[] = "ABCDEFGHIJKLMNOPQRSTUVWXYZabcdef
  * per row.  Reformatting is turned off to make sure this stays as 16 bytes per line. */
 /* clang-format off */
 static const uint8_t BASE64_DECODING_TABLE[256] = {
-    64,   0xDD, 0xDD, 0xDD, 0xDD, 0xDD, 0xDD, 0xDD, 0xDD, 0xDD, 0xDD, 0xDD, 0xDD, 0xDD, 0xDD, 0xDD,
+    0xDD, 0xDD, 0xDD, 0xDD, 0xDD, 0xDD, 0xDD, 0xDD, 0xDD, 0xDD, 0xDD, 0xDD, 0xDD, 0xDD, 0xDD, 0xDD,
     0xDD, 0xDD, 0xDD, 0xDD, 0xDD, 0xDD, 0xDD, 0xDD, 0xDD, 0xDD, 0xDD, 0xDD, 0xDD, 0xDD, 0xDD, 0xDD,
     0xDD, 0xDD, 0xDD, 0xDD, 0xDD, 0xDD, 0xDD, 0xDD, 0xDD, 0xDD, 0xDD, 62,   0xDD, 0xDD, 0xDD, 63,
     52,   53,   54,   55,   56,   57,   58,   59,   60,   61,   0xDD, 0xDD, 0xDD, 255,  0xDD, 0xDD,
@@ -397,6 +397,16 @@ int aws_base64_decode(const struct aws_byte_cursor *AWS_RESTRICT to_decode, stru
             s_base64_get_decoded_value(to_decode->ptr[string_index++], &value2, 0) ||
             s_base64_get_decoded_value(to_decode->ptr[string_index++], &value3, 1) ||
             s_base64_get_decoded_value(to_decode->ptr[string_index], &value4, 1)) {
+            return aws_raise_error(AWS_ERROR_INVALID_BASE64_STR);
+        }
+
+        /* padding may only be trailing, and the bits it leaves unused must be zero (the vectorized decoder requires
+         * the same) */
+        if (value3 == BASE64_SENTINEL_VALUE) {
+            if (value4 != BASE64_SENTINEL_VALUE || (value2 & 0x0F)) {
+                return aws_raise_error(AWS_ERROR_INVALID_BASE64_STR);
+            }
+        } else if (value4 == BASE64_SENTINEL_VALUE && (value3 & 0x03)) {
             return aws_raise_error(AWS_ERROR_INVALID_BASE64_STR);
         }
 
